@@ -23,19 +23,53 @@ META = dict(
                 'histories: hit = value, triggers, deadline of the latest store; miss after remove / clear / rise of any attached trigger / '
                 'deadline passed / never stored; (5) every interface operation is one back-end operation, a recorder returns exactly the names '
                 'added between attach and detach under any nesting, the page set holds everything added or inherited since the last reset, a '
-                'stored page or frame misses after raising any of its recorded triggers. '
+                'stored page or frame misses after raising any of its recorded triggers; (6) the model of private/hash_map.h (intrusive list + '
+                'bucket ranges, growth rehash, erase repairing range ends, both clear branches) refines a finite map for every operation sequence, '
+                'and string_hash::update_state as translated from the current header equals the model hash (Link.v). '
                 'The model is tied to the current source by running the extracted model and the real code on the same operation sequences: '
                 'exhaustive short sequences over a tiny alphabet, long random ones, limits 0,1,2,small,large, both back ends, and sequences '
                 'through cache_interface objects of a service and of request contexts.'),
-    level_note=('Trusted: Coq kernel; ExtrOcamlBasic extraction; the hand-written models (no function of this code is in the loop-free integer '
-                'fragment cxx2v translates - containers, strings, time() - so the tie is correspondence only, including the constant infty of '
-                'deadtime() which is pinned by a boundary case); hash_map is modelled as a finite map (its bucket/rehash machinery is exercised '
-                'through the cache by >2*limit inserts, not proved); std::multimap/std::list/std::set semantics; locks are not modelled '
+    level_note=('Trusted: Coq kernel; ExtrOcamlBasic extraction; the hand-written models (only string_hash::update_state is in the loop-free '
+                'integer fragment cxx2v translates and is linked; containers, strings, time() are tied by correspondence, including the constant '
+                'infty of deadtime() which is pinned by a boundary case); the cache model uses a finite map for primary/triggers - the hash_map '
+                'model is proved to refine a finite map and is tied to the header separately, the two are composed through that interface, not '
+                'as one Coq term; std::multimap/std::list/std::set semantics; locks are not modelled '
                 '(single-threaded semantics; concurrency is C09). Allocation failures of the shared-memory variant are oracle arguments of the '
                 'model (covered by the soundness theorems; correspondence covers only the value-larger-than-the-segment failure).'),
 )
 
-GEN = {}
+import re
+
+
+def _hash_tu():
+    """tools/cxx2v.py resolves uint32_t but not the nested typedef string_hash::state_type, so the body of
+    string_hash::update_state is lifted textually from the CURRENT private/hash_map.h into a tiny TU (regenerated on every
+    import, i.e. on every run) in which the typedef name is replaced by the type it names.  If the function can no longer
+    be found in that shape the TU is left without it and the translator reports a broken tie."""
+    d = os.path.join(vlib.WORK, 'C07')
+    os.makedirs(d, exist_ok=True)
+    out = os.path.join(d, 'C07_hash_tu.cpp')
+    try:
+        src = open(os.path.join(vlib.REPO, 'private', 'hash_map.h')).read()
+    except OSError:
+        src = ''
+    m = re.search(r'typedef\s+uint32_t\s+state_type\s*;.*?static\s+state_type\s+update_state\s*\(\s*state_type\s+value\s*,\s*char\s+c\s*\)\s*\{(.*?)\n\t\}',
+                  src, re.S)
+    m0 = re.search(r'static\s+const\s+state_type\s+initial_state\s*=\s*(\w+)\s*;', src)
+    txt = '// generated by checks/C07.py from private/hash_map.h (string_hash) -- do not edit\n#include <stdint.h>\n'
+    if m0:
+        txt += 'static const uint32_t c07_initial_state = %s;\n' % m0.group(1)
+    if m:
+        txt += 'uint32_t c07_update_state(uint32_t value,char c)\n{' + m.group(1).replace('state_type', 'uint32_t') + '\n}\n'
+    vlib.write_if_changed(out, txt)
+    return out
+
+
+GEN = {
+    # string_hash::update_state and string_hash::initial_state of private/hash_map.h (the hash behind mem_cache::primary / triggers)
+    'Gen_C07_hash': dict(src=_hash_tu(), incs=[], consts=[('c07_initial_state', 'g_c07_hash_initial')],
+                         functions=[('c07_update_state', 'g_c07_hash_update')]),
+}
 
 T0 = 1000
 INFTY = 0x7FFFFFFFFFFFFFFF - 3600 * 24
@@ -322,6 +356,8 @@ def oracle_sound(case, out, pressure=False):
 def oracle(case, out):
     if out == '<missing>':
         return None         # the worker stopped at an earlier case (which carries the crash marker); no verdict for this one
+    if case.startswith('hm '):
+        return oracle_hm(case, out)
     if case.startswith('ifc ') or case.startswith('ifp '):
         return oracle_ifc(case, out)
     return oracle_sound(case, out)
@@ -448,6 +484,85 @@ def oracle_ifc(case, out):
             return ('stats-exceed-history', 'stats after op %d (%s) are %s; at most %d/%d entries can be valid, limit %d'
                     % (i, o[:80], st, len(sp.m), sp.trig_count(), limit))
     return None
+
+
+# --------------------------------------------------------------------------------------------
+# private/hash_map.h directly: finite-map specification over the implementation's answers
+# --------------------------------------------------------------------------------------------
+def oracle_hm(case, out):
+    ops = case.split()[1:]
+    if out.startswith('<') or 'exception' in out:
+        return ('hashmap-crash', 'hash_map harness died: ' + out[:200])
+    toks = out.split(' ') if out else []
+    if len(toks) != len(ops):
+        return ('bad-output', 'answer has %d tokens for %d ops' % (len(toks), len(ops)))
+    m = {}
+    for i, (o, a) in enumerate(zip(ops, toks)):
+        f = o.split(':')
+        af = a.split(':')
+        if len(af) != 3:
+            return ('bad-output', 'malformed token ' + a[:80])
+        where = 'op %d (%s) answered %s' % (i, o, a)
+        if f[0] == 'I':
+            exp = 'i0' if f[1] in m else 'i1'
+            m.setdefault(f[1], int(f[2]))
+        elif f[0] == 'F':
+            exp = 'f%d' % m[f[1]] if f[1] in m else 'f-'
+        elif f[0] == 'E':
+            exp = 'e%d' % m[f[1]] if f[1] in m else 'e-'
+            m.pop(f[1], None)
+        elif f[0] == 'C':
+            exp = 'c'
+            m.clear()
+        elif f[0] == 'R':
+            exp = 'rskip' if (int(f[1]) == 0 and m) else 'r'
+        else:
+            return ('bad-output', where)
+        if af[0] != exp:
+            return ('hashmap-wrong-answer', 'hash_map answered %s where a finite map answers %s: %s' % (af[0], exp, where))
+        if int(af[1]) != len(m):
+            return ('hashmap-wrong-size', 'size() is %s, the map holds %d keys: %s' % (af[1], len(m), where))
+    return None
+
+
+def hm_cases(rng, n):
+    """sequences against hash_map<std::string,int,string_hash>: few keys in few buckets (collisions, range ends), growth
+    rehash (table doubles), explicit rehash to 1 / small / large tables, clear in both branches (size/4 >= table or not)"""
+    cases = []
+    k = lambda x: hx(x)
+    # aimed: one bucket (rehash 1 is undone by growth, so erase right after), first / last / middle erase, reinsertion
+    a, b, c, d, e = [bytes([97 + i]) for i in range(5)]
+    cases.append('hm ' + ' '.join(['I:%s:%d' % (k(x), i) for i, x in enumerate([a, b, c, d, e])] + ['R:1'] +
+                                  ['F:' + k(x) for x in [a, c, e]] + ['E:' + k(a), 'F:' + k(b), 'E:' + k(e), 'F:' + k(d), 'E:' + k(c), 'F:' + k(b), 'F:' + k(d),
+                                   'I:%s:7' % k(c), 'F:' + k(c), 'E:' + k(b), 'E:' + k(d), 'E:' + k(c), 'F:' + k(a), 'I:%s:8' % k(a), 'F:' + k(a)]))
+    cases.append('hm R:0 F:61 I:61:1 I:61:2 F:61 C R:0 F:61 I:-:3 F:- E:- F:- C C R:3 I:61:4 R:0 F:61')
+    # clear with many nodes in a small table (size/4 >= buckets) and with few nodes in a big table
+    cases.append('hm R:2 ' + ' '.join('I:%s:%d' % (k(b'k%d' % i), i) for i in range(3)) + ' C F:6b30 I:6b30:5 F:6b30')
+    cases.append('hm ' + ' '.join('I:%s:%d' % (k(b'k%d' % i), i) for i in range(40)) + ' R:3 C ' + ' '.join('F:%s' % k(b'k%d' % i) for i in range(0, 40, 7)) + ' I:6b31:1 F:6b31')
+    cases.append('hm R:1000 ' + ' '.join('I:%s:%d' % (k(b'k%d' % i), i) for i in range(5)) + ' C F:6b30 I:6b30:5 F:6b30')
+    for _ in range(n):
+        nk = rng.choice([2, 3, 5, 8, 30, 200])
+        keys = [k(b'k%d' % i) for i in range(nk)] + ['-']
+        if rng.random() < 0.3:
+            keys += [k(bytes([rng.randrange(256) for _ in range(rng.choice([1, 2, 9]))])) for _ in range(4)]
+        ops = []
+        if rng.random() < 0.5:
+            ops.append('R:%d' % rng.choice([0, 1, 2, 5, 64]))
+        pi = rng.choice([0.35, 0.5, 0.7])
+        for _ in range(rng.choice([5, 30, 120, 400])):
+            r = rng.random()
+            if r < pi:
+                ops.append('I:%s:%d' % (rng.choice(keys), rng.randrange(1000)))
+            elif r < pi + 0.18:
+                ops.append('F:' + rng.choice(keys))
+            elif r < pi + 0.43:
+                ops.append('E:' + rng.choice(keys))
+            elif r < pi + 0.46:
+                ops.append('C')
+            else:
+                ops.append('R:%d' % rng.choice([0, 1, 1, 2, 3, 7, 16, 100]))
+        cases.append('hm ' + ' '.join(ops))
+    return cases
 
 
 # --------------------------------------------------------------------------------------------
@@ -692,6 +807,9 @@ def gen_cases(ctx):
 
 
 def nontrivial(case, out):
+    if case.startswith('hm '):
+        # a refused duplicate insert, a successful erase and a rehash all happened
+        return ' i0:' in ' ' + out and ' e' in out and ' r:' in ' ' + out
     # a sequence that produced at least one hit and at least one miss of a key that had been stored before
     if ' h:' not in ' ' + out:
         return False
@@ -706,6 +824,9 @@ def nontrivial(case, out):
 
 
 def classify(case, out):
+    if case.startswith('hm '):
+        n = case.count(' ')
+        return 'hm:' + ('len<=40' if n <= 40 else 'len>40')
     c = case.split(None, 4)
     lim = int(c[2])
     n = len(c[4].split()) if len(c) > 4 else 0
@@ -722,13 +843,16 @@ def run(ctx):
     ctx.proof(res)
     ctx.coverage['trusted_base'] = [
         'Coq 8.16.1 kernel (vm_compute only in the non-vacuity Examples and in the _refuted witness)',
-        'hand-written models coq/C07/Defs.v (mem_cache, src/cache_storage.cpp) and coq/C07/Ifc.v (cache_interface, triggers_recorder, '
-        'src/cache_interface.cpp); no cxx2v-translatable leaf functions in this code',
+        'hand-written models coq/C07/Defs.v (mem_cache, src/cache_storage.cpp), coq/C07/Ifc.v (cache_interface, triggers_recorder, '
+        'src/cache_interface.cpp) and coq/C07/HashMap.v (private/hash_map.h); generated leaf: string_hash::update_state (coq/gen/Gen_C07_hash.v, '
+        'lifted textually from the header into a TU because cxx2v does not resolve the nested typedef state_type)',
         'the map specification of coq/C07/Spec.v (m_step, m_fetch) and coq/C07/MapSpec.v is what the property text means',
         'extraction: ExtrOcamlBasic only, OCaml 4.13.1',
         'harness/C07_cache.cpp + harness/C07_dummy_api.h (interposed time(), fork per process_shared / interface case, socket-less cgi connection '
         'for request contexts), ocaml/C07_driver.ml, checks/C07.py (generators, spec interpreter oracle)',
-        'hash_map / std::multimap / std::list / std::set behave as finite map / stable sorted multimap / list / set']
+        'harness/C07_hashmap.cpp (hash_map<std::string,int,string_hash> of the current header)',
+        'std::multimap / std::list / std::set behave as stable sorted multimap / list / set; the cache model composes with the proved hash_map '
+        'model through the finite-map interface']
     ctx.assumptions = ['single-threaded use (locks not modelled; C09 covers concurrency)',
                        'theorems refines_spec / live_entry_found: limit 0, no allocation failure, not_enough_memory() false (op_no_fault)',
                        'theorems refines_spec_limited and the miss/hit clauses: no store whose value copy fails (op_no_drop_before); that case is the '
@@ -758,15 +882,27 @@ def run(ctx):
                             'Mode ifc: sequences through a cppcms::cache_interface(service) - store_frame/fetch_frame with and without notriggers, add_trigger, '
                             'rise, clear, reset, nested triggers_recorder attach/detach; mode ifp: the same through the cache_interface of request contexts '
                             '(socket-less connection) plus next-request, fetch_page and store_page with and without gzip; both compared with the extracted '
-                            'interface model and judged by the oracle (recorder sets, inherited triggers, page invalidation). Non-trivial = at least one hit and at '
+                            'interface model and judged by the oracle (recorder sets, inherited triggers, page invalidation). Mode hm: insert/find/erase/clear/'
+                            'rehash sequences against cppcms::impl::hash_map<std::string,int,string_hash> itself; result, size() and a digest of the iteration '
+                            'order after every operation must equal the extracted hash_map model (so bucket ranges, rehash order and the hash function are '
+                            'pinned), the oracle is the finite map. Non-trivial = at least one hit and at '
                             'least one miss of a previously stored key; distinct = distinct case lines.')
     ctx.coverage['exhaustive'] = False
     ctx.coverage['exhaustive_parts'] = ['all op sequences of length 3 (quick) / 4 (thorough) over the 29-op alphabet ending in a fetch x limits {0,1,2}',
                                         'all op sequences of length 4 (quick) / 5 (thorough) over the 15-op alphabet ending in a fetch']
     seqs = [c for c in cases if c.startswith('seq ')]
-    ifcs = [c for c in cases if not c.startswith('seq ')]
+    ifcs = [c for c in cases if c.startswith('ifc ') or c.startswith('ifp ')]
+    hms = [c for c in cases if c.startswith('hm ')]
     vlib.differential(ctx, seqs, exe, mexe, oracle, nontrivial, classify)
     if ctx.replay_cases is None:
         ifcs += ifc_cases(ctx.rng, ctx.scale(600, 6000), ['t', 'p512'], [0, 0, 2, 64])
+    if ctx.replay_cases is None:
+        hms += hm_cases(ctx.rng, ctx.scale(1500, 15000))
+    if hms:
+        hexe, err = vlib.build_harness('C07_hashmap', ['C07_hashmap.cpp'], link=False)
+        if not hexe:
+            ctx.broke('hash_map harness build failed', err)
+        else:
+            vlib.differential(ctx, hms, hexe, mexe, oracle, nontrivial, classify, what='correspondence hash_map model vs private/hash_map.h')
     if ifcs:
         vlib.differential(ctx, ifcs, exe, mexe, oracle, nontrivial, classify, what='correspondence interface model vs cache_interface')
